@@ -1,8 +1,11 @@
 //! `driver gen <cases.jsonl> <results.jsonl>` - see /verif/harness/DRIVER_SPEC.md.
+//! `driver batch <cases.jsonl> <outdir> [--real] [--shim]` - see /verif/harness/BATCH_SPEC.md.
 
+pub mod batch;
 pub mod coqfmt;
 pub mod extract;
 pub mod irdump;
+pub mod probe;
 pub mod tokpat;
 
 use serde_json::{json, Value};
@@ -261,6 +264,14 @@ fn main() {
                 1
             }
         },
+        // behavioural level: compile / run the generated modules (see BATCH_SPEC.md)
+        Some("batch") => match batch::batch(&args[2..]) {
+            Ok(()) => 0,
+            Err(e) => {
+                eprintln!("driver: {}", e);
+                1
+            }
+        },
         // debugging helpers: print the `out` term of a generated file / the `module` term of a shader
         Some("extract") if args.len() == 3 => match std::fs::read_to_string(&args[2]) {
             Ok(text) => match extract::extract(&text) {
@@ -295,7 +306,7 @@ fn main() {
             }
         },
         _ => {
-            eprintln!("usage: driver gen <cases.jsonl> <results.jsonl>\n       driver extract <generated.rs>\n       driver ir <shader.wgsl>");
+            eprintln!("usage: driver gen <cases.jsonl> <results.jsonl>\n       driver batch <cases.jsonl> <outdir> [--real] [--shim] [--rounds N]\n       driver extract <generated.rs>\n       driver ir <shader.wgsl>");
             2
         }
     };
